@@ -76,15 +76,25 @@ def cut_set_for(P):
     return _CUT[k]
 
 
+def n_variants(job):
+    cfg, key = job
+    P = _prog(cfg)
+    try:
+        return len(contracts.variants_for(P, P.instances[key]))
+    except Exception:
+        return 1
+
+
 def run_one(job):
-    cfg, key, budget = job
+    """one (root, analysis variant) pair"""
+    cfg, key, budget, vi = job
     P = _prog(cfg)
     inst = P.instances[key]
     t0 = time.time()
     rec = {'root': key, 'path': inst.path, 'loc': inst.loc, 'obs': [], 'error': None, 'notes': [], 'stats': {}, 'variants': []}
     try:
         variants = contracts.variants_for(P, inst)
-        for vname, contract, post in variants:
+        for vname, contract, post in variants[vi:vi + 1]:
             r = e2run.run_root(P, key, contract, time_budget=budget, cut_set=cut_set_for(P) - {key})
             I = r['interp']
             if r['error']:
@@ -92,6 +102,7 @@ def run_one(job):
             else:
                 contracts.post_invariants(I, inst, r['results'], r.get('args', []))
                 mm.check_root_post(I, inst, r['results'], r.get('args', []))
+                mm.check_domain(I, inst, vname, r['results'])
                 if post:
                     post(I, inst, r['results'])
             for o in I.obs:
@@ -108,6 +119,19 @@ def run_one(job):
     return rec
 
 
+def merge_recs(recs):
+    """records of the variants of one root -> one record"""
+    out = recs[0]
+    for r in recs[1:]:
+        out['obs'] += r['obs']
+        out['error'] = out['error'] or r['error']
+        out['notes'] += [n for n in r['notes'] if n not in out['notes']]
+        out['variants'] += r['variants']
+        out.setdefault('cuts', {}).update(r.get('cuts', {}))
+        out['time'] = round(out['time'] + r['time'], 2)
+    return out
+
+
 def run_config(cfg, budget=180, jobs=None, only=None, use_cache=True):
     P = _prog(cfg)
     cache = os.path.join(configs.cache_dir(), f"e2-{cfg}-{src_hash()}.json")
@@ -119,13 +143,23 @@ def run_config(cfg, budget=180, jobs=None, only=None, use_cache=True):
         rx = re.compile(only)
         roots = [r for r in roots if rx.search(r)]
     t0 = time.time()
-    work = [(cfg, r, budget) for r in roots]
     n = jobs or min(16, os.cpu_count() or 4)
-    if n > 1 and len(work) > 1:
+    if n > 1 and len(roots) > 1:
         with Pool(n) as pool:
-            recs = pool.map(run_one, work, chunksize=1)
+            counts = pool.map(n_variants, [(cfg, r) for r in roots], chunksize=8)
+            work = [(cfg, r, budget, vi) for r, c in zip(roots, counts) for vi in range(c)]
+            # longest jobs first (roots with many variants are the substring searchers)
+            order = sorted(range(len(work)), key=lambda i: -counts[roots.index(work[i][1])])
+            parts = pool.map(run_one, [work[i] for i in order], chunksize=1)
+        by_root = {}
+        for i, rec in zip(order, parts):
+            by_root.setdefault(work[i][1], []).append((work[i][3], rec))
+        recs = [merge_recs([r for _, r in sorted(by_root[k], key=lambda x: x[0])]) for k in roots]
     else:
-        recs = [run_one(w) for w in work]
+        recs = []
+        for r in roots:
+            c = n_variants((cfg, r))
+            recs.append(merge_recs([run_one((cfg, r, budget, vi)) for vi in range(c)]))
     out = {'cfg': cfg, 'roots': recs, 'wall': round(time.time() - t0, 1), 'n_roots': len(roots)}
     if only is None:
         json.dump(out, open(cache, 'w'))
